@@ -267,7 +267,7 @@ def build_instances(tier):
         inst.append(Instance(f'Message.parse n={n}', h_msg, (n, None), native=n_msg, engine_kw={'max_ticks': 400 + 40 * n}))
     inst.append(Instance('Message.parse header_only n=28', h_msg, (28, None, True), native=n_msg))
     inst.append(Instance('Message.parse header_only n=27', h_msg, (27, None, True), native=n_msg))
-    for n in {'quick': (32,), 'thorough': (32,)}[tier]:
+    for n in {'quick': (32,), 'thorough': (32, 36)}[tier]:
         for ft in known + [0, 'other']:
             inst.append(Instance(f'Message.parse n={n} first={ft}', h_msg, (n, ft), native=n_msg,
                                  engine_kw={'max_ticks': 400 + 40 * n}))
@@ -361,8 +361,8 @@ def main(tier, seed):
                                           m.PayloadDELETE.parse, m.PayloadNOTIFY.parse, m.PayloadID.parse,
                                           m.PayloadAUTH.parse, m.PayloadKE.parse),
                 bounds={'unit buffers': 'every byte string of the listed lengths per payload class',
-                        'datagram': 'every byte string of length 0,27..32 (thorough: also 1,16,30); longer datagrams are '
-                                    'outside the claim except through the per-unit harnesses',
+                        'datagram': 'every byte string of length 0,27..32 (thorough: also 1,16,30, and 36 bytes with the first payload type fixed to each '
+                                    'known type, 0 and "any other"); longer datagrams are outside the claim except through the per-unit harnesses',
                         'keyed': 'every (key, IV, ciphertext, ICV) with 16 bytes of ciphertext, 1 (thorough: 3) integrity '
                                  'algorithms, the decrypted body being arbitrary with Pad Length >= 8, i.e. inner payload chains of up to 7 bytes',
                         'step budget': '400 + 40 * len(buffer) engine ticks per path (struct calls + decisions); exceeding '
